@@ -28,16 +28,16 @@ def harnesses(tier, findings):
         a = t2(2, 40, 6, 900); a.cflags = []; a.name += "_plain"; a.nobody_ok = []; a.unwind = 50
         return [a]
     if tier == "probe":
-        return [t2(1, 16, 4, 600), t2(2, 40, 6, 600), t2(3, 40, 8, 600), t2(2, 100, 6, 600, wmin=41)]
+        return [t2(2, 64, 8, 1500, wmin=41), t2(2, 84, 8, 1500, wmin=65), t2(3, 52, 8, 1500, wmin=41), t2(3, 64, 8, 1500, wmin=53)]
     if tier == "quick":
         return [t1(1), reconf(), t2(1, 16, 4, 600), t2(2, 64, 6, 600), t2(3, 40, 8, 600)]
-    return [t1(1), reconf(3000), t2(1, 32, 8, 3000)] + [t2(2, hi, 8, 3000, wmin=lo) for lo, hi in ((1, 64), (65, 110), (111, 140))] + \
-           [t2(3, hi, 8, 3000, wmin=lo) for lo, hi in ((1, 40), (41, 70), (71, 96), (97, 130))]
+    return [t1(1), reconf(3000), t2(1, 32, 8, 3000)] + [t2(2, hi, 8, 3000, wmin=lo) for lo, hi in ((1, 40), (41, 64), (65, 84), (85, 100))] + \
+           [t2(3, hi, 8, 3000, wmin=lo) for lo, hi in ((1, 28), (29, 40), (41, 52), (53, 64))]
 
 META = dict(
     level="model_checking",
     bounds=dict(quick="tier 1: one set from the initial camera state and one re-configuration step from an arbitrary earlier configuration, full 32-bit shape/offset range, all binnings and types; tier 2: im_fill_rand for all shapes <= 16x4 and types (symbolic), AVX2 bin2 and the binning cascade (2,4,8) for every shape <= 64 x 6/8 (enumerated, see harness)",
-                thorough="tier 2 boxes: im_fill_rand 32x8, bin2 widths 1..140 x heights 1..8, cascade widths 1..130 x heights 1..8"),
+                thorough="tier 2 boxes: im_fill_rand 32x8, bin2 widths 1..100 x heights 1..8, cascade widths 1..64 x heights 1..8 (in width slices of about 10 GB each)"),
     outside="re-configuration while the streamer thread is running (buffers are reallocated under it); allocation failure",
     assumptions=["popcount_u8 (C++ std::popcount) replaced by a C bit-count model", "realloc stub records the requested size; lock model of env/plat_seq.c",
                  "pattern renderers (C++, imfill.pattern.cpp) are stubbed: their extent is not decided (their loops write width*height elements through the strides of the full-resolution shape)",
